@@ -10,6 +10,22 @@ KINDS = {
     'table': 'contracts.encoders:replay_table_data',
     'reverse': 'contracts.encoders:replay_reverse_data',
     'fault_bank': 'bounded.faults:replay',
+    'relocate': 'contracts.relocate:replay_relocate',
+    'call_int': 'contracts.relocate:replay_call_int',
+    'hilo_eval': 'contracts.relocate:replay_hilo_eval',
+    'relocate_consumer': 'contracts.relocate:replay_consumer',
+    'pass_step': 'contracts.replay_passes:replay_pass_step',
+    'compress_rule': 'contracts.replay_passes:replay_compress_rule',
+    'pseudo_effect': 'contracts.replay_passes:replay_pseudo_effect',
+    'expr_eval': 'contracts.exprs:replay_expr_eval',
+    'align_size': 'contracts.emit:replay_align_size',
+    'data_range': 'contracts.emit:replay_data_range',
+    'cli': 'contracts.cli:replay_cli',
+    'dfu': 'contracts.dfu:replay_dfu',
+    'purity': 'contracts.frames:replay_purity',
+    'encoder_text': 'contracts.parse:replay_encoder_text',
+    'spelling': 'contracts.parse:replay_spelling',
+    'include_tree': 'contracts.reader:replay_include_tree',
 }
 
 
